@@ -502,7 +502,15 @@ PROPS["C03"] = _sys("C03", [],
     "apply/delete failed or was skipped or whose reconcile failed/timed out, minus abandoned, + tracked invalid), no repeats, nothing foreign; "
     "a successful destroy leaves nothing to retain; fixpoint components: kubectl's client-side apply of an unchanged object sends no request, the "
     "merge and the final replace write nothing when the set is unchanged (StatusPolicyNone); the final task, when it succeeds, stores exactly the formula "
-    "and touches no object (final_task_writes_formula), a timed-out tracked object stays (timed_out_object_stays). Model equivalence itself is the trace correspondence: the Lean run model "
+    "and touches no object (final_task_writes_formula), a timed-out tracked object stays (timed_out_object_stays). WHOLE RUN (Props/C03R.lean, "
+    "Lemmas/ConvergeL.lean, for every cluster and non-dry run): every object whose apply is recorded successful is live and annotated at every exit "
+    "of the run (applied_objects_live); an object whose delete succeeded and was observed gone is not in the store (deleted_objects_gone); a run "
+    "without error event stores exactly the inventory formula evaluated on its final manager table and the inventory it started from "
+    "(completed_run_inventory); a destroy without error event in which destroySuccessful held leaves no inventory object and no annotated object "
+    "(destroy_leaves_nothing); after a clean apply (every record applied and reconciled, nothing invalid) the stored inventory is exactly the apply set "
+    "and re-running an apply with the same valid apply ids — under ANY faults, cancellation or controller behaviour — sends no delete, no create other "
+    "than the idempotent bootstrap create of the inventory namespace, and leaves the stored inventory unchanged (reapply_is_fixpoint_partial / _noprune; "
+    "partial: the re-run's plan is assumed to have the same valid apply ids when the first run pruned, and client-side patches are not excluded). Model equivalence itself is the trace correspondence: the Lean run model "
     "stepped with the same histories produces the same stored inventory and store as the implementation after every run.",
     "Spec predicate: after every run without error event: applied objects live+annotated, completed deletes gone, stored inventory = formula from "
     "the observed events; an identical clean re-apply sends no effective create/delete and leaves the inventory unchanged; destroy leaves nothing managed.",
